@@ -204,14 +204,28 @@ def run_case(case):
             pts = [oqupy.pt_tempo_compute(
                 b, 0.0, lib.end_time(0.0, dt, nsteps), params,
                 progress_type="silent") for b in baths]
+            # float-time controls on every system (shifted with the origin)
+            ks = int(rng.integers(0, nsteps + 1))
+            off3 = float(rng.uniform(-0.35, 0.35))
+            sups = [scen.random_superop(rng, dd, "unitary") for dd in dims]
+            cells.append("float-controls")
+
+            def ctrls(s):
+                out = []
+                for dd, sup in zip(dims, sups):
+                    c = oqupy.Control(dd)
+                    c.add_single(float(s + (ks + off3) * dt), sup,
+                                 post=bool(i % 4 == 1 and ks < nsteps))
+                    out.append(c)
+                return out
             da = oqupy.compute_dynamics_with_field(
                 ma, a0, process_tensor_list=pts, initial_state_list=rhos,
                 start_time=start, subdiv_limit=subdiv,
-                progress_type="silent")
+                control_list=ctrls(start), progress_type="silent")
             db = oqupy.compute_dynamics_with_field(
                 mb, a0, process_tensor_list=pts, initial_state_list=rhos,
                 start_time=start + tau, subdiv_limit=subdiv,
-                progress_type="silent")
+                control_list=ctrls(start + tau), progress_type="silent")
         for k in range(len(dims)):
             compare_states(da.system_dynamics[k].states,
                            db.system_dynamics[k].states, method)
